@@ -88,6 +88,9 @@ def coq_header(prop: str) -> str:
     if prop not in _ZONES_BUILT:
         d.mkdir(parents=True, exist_ok=True)
         src = ["From CG Require Export Harness.GcsaChk."]
+        # the model compares zones by table where the adapter compares them by name
+        tables = [repr(zone_table(z)) for z in EV_ZONES]
+        assert len(set(tables)) == len(tables), "two zone names share one table"
         for z in EV_ZONES:
             off0, tr = zone_table(z)
             src.append(f"Definition {zname(z)} : zone := (mkZone {cz(off0)} "
